@@ -1,5 +1,69 @@
-(* Properties_C07.v -- filled from EngineRead / EngineSteps when they land. *)
-From LCDB Require Import Base Engine EngineSpec EngineRead.
+(* Properties_C07.v -- C07: "An iterator yields exactly the live keys of the view
+   fixed at its creation (or of its snapshot), each once, in comparator order with
+   matching values; after any mix of first, last, seek, seek_ge/gt/le/lt, next and
+   prev it is positioned on the entry a sorted map dictates, and forward and backward
+   traversals agree with each other and with point lookups."
+
+   Model: Merger.v (replica of table/merger.c), DbIter.v (replica of db_iter.c and of
+   the compositions of table/iterator.c via Cursor.v), tied to the implementation by
+   checks/k2lib.py (every iterator script run on lcdb is also run on the extracted
+   model iterator).  Statements only; proofs in DbIterProofs.v, MergerProofs.v,
+   IteratorProofs.v, LiveViewProofs.v, EngineRead.v. *)
+From LCDB Require Import Base Cursor CursorProofs Engine EngineSpec EngineRead Merger MergerProofs
+                         DbIter LiveViewProofs DbIterProofs IteratorProofs.
+
+(* the DB iterator of a state (db_iter.c over merger.c over memtable, immutable
+   memtable, level-0 files and level iterators) answers every script -- observations
+   are "key:value", "invalid", or "skipped" -- as a cursor over the live view does *)
+Theorem C07_iterator : forall ucmp, total_order ucmp -> forall s q script,
+  inv_b ucmp s = true ->
+  run_script (db_iter_ops ucmp s q) (db_iter_init s) script =
+  run_script (view_cursor ucmp (live_view ucmp s q)) None script.
+Proof. exact C07_iterator_thm. Qed.
+Print Assumptions C07_iterator.
+
+(* ... and as a sorted map dictates: seek/seek_ge = first key >= target, seek_gt =
+   first key > target, seek_le = last key <= target, seek_lt = last key < target,
+   next / prev = neighbouring positions, first / last = the ends *)
+Theorem C07_iterator_sorted_map : forall ucmp, total_order ucmp -> forall s q script,
+  inv_b ucmp s = true ->
+  run_script (db_iter_ops ucmp s q) (db_iter_init s) script =
+  map_script (kvcmp ucmp) (live_view ucmp s q) None script.
+Proof. exact C07_iterator_sorted_map_thm. Qed.
+Print Assumptions C07_iterator_sorted_map.
+
+(* each key once, in strictly increasing comparator order *)
+Theorem C07_view_strictly_sorted : forall ucmp, total_order ucmp -> forall s q,
+  inv_b ucmp s = true -> SrtBy (klt ucmp) (live_view ucmp s q).
+Proof. exact live_view_strictly_sorted. Qed.
+Print Assumptions C07_view_strictly_sorted.
+
+(* the view the iterator walks and point lookups agree *)
+Theorem C07_get_agrees_with_iterator : forall ucmp, total_order ucmp -> forall s k q v,
+  inv_b ucmp s = true ->
+  ((exists k', ucmp k' k = Eq /\ In (k', v) (live_view ucmp s q)) <->
+   visible (get ucmp s k q) = Some v).
+Proof. exact iterator_agrees_with_get. Qed.
+Print Assumptions C07_get_agrees_with_iterator.
+
+(* db_iter.c alone: over ANY strictly sorted run of internal entries (direction
+   switches, deletions, overwritten and too-new entries) *)
+Theorem C07_dbiter_is_view_cursor : forall ucmp, total_order ucmp -> forall es q fuel,
+  sorted_run ucmp es = true -> (length es + 2 <= fuel)%nat ->
+  simulates (dbiter_ops ucmp (cursor_ops (itge ucmp) (itcmp ucmp) es) fuel q) (d_init None)
+            (view_cursor ucmp (live_of_sorted ucmp q None es)) None.
+Proof. exact dbiter_is_view_cursor. Qed.
+Print Assumptions C07_dbiter_is_view_cursor.
+
+(* merger.c alone: over strictly sorted runs with pairwise distinct internal keys *)
+Theorem C07_merger_is_cursor : forall ucmp, total_order ucmp -> forall runs,
+  runs_ok ucmp runs ->
+  simulates (internal_ops ucmp) (m_init runs)
+            (cursor_ops (itge ucmp) (itcmp ucmp) (sort_entries ucmp (concat runs))) None.
+Proof. exact merger_is_cursor. Qed.
+Print Assumptions C07_merger_is_cursor.
+
+(* the exact read path returns the newest visible entry *)
 Theorem C07_get_is_newest_visible : forall ucmp, total_order ucmp -> forall s k q,
   inv_b ucmp s = true -> get ucmp s k q = result_of (best ucmp (all_entries s) k q).
 Proof. exact get_correct. Qed.
